@@ -107,8 +107,12 @@ impl Runner {
         let days = job["cfg"]["days"].as_i64().unwrap_or(14);
         let versions = job["cfg"]["versions"].as_u64().unwrap_or(100) as u32;
         let ncl = job["nclients"].as_u64().unwrap_or(2) as usize;
-        let dir = scratch.join(&id);
-        if backend == "sqlite" {
+        // an explicit "dir" is used as it is (crash images, fixtures) and never deleted
+        let dir = match job["dir"].as_str() {
+            Some(d) => PathBuf::from(d),
+            None => scratch.join(&id),
+        };
+        if backend == "sqlite" && job["dir"].as_str().is_none() {
             let _ = std::fs::remove_dir_all(&dir);
             std::fs::create_dir_all(&dir)?;
         }
@@ -178,7 +182,7 @@ impl Runner {
             t.cleanup();
         }
         self.close();
-        if self.backend == "sqlite" {
+        if self.backend == "sqlite" && self.job["dir"].as_str().is_none() {
             let _ = std::fs::remove_dir_all(&self.dir);
         }
     }
@@ -385,6 +389,11 @@ impl Runner {
                 let (tok, body) = match s.get("bytes").and_then(|b| b.as_str()) {
                     Some(hex) => {
                         let b = crate::unhex(hex);
+                        (self.pay.intern(b.clone()), b)
+                    }
+                    None if s.get("size").and_then(|x| x.as_u64()).is_some() => {
+                        let n = self.pay.fresh_tok();
+                        let b = big_payload(n + (self.run << 20), s["size"].as_u64().unwrap() as usize);
                         (self.pay.intern(b.clone()), b)
                     }
                     None => {
